@@ -5,6 +5,29 @@ package dastard
 // Thin access for the out-of-tree verification harness (/verif/harness, property C07).
 // Compiled only with `-tags verif`; adds no behaviour to the normal build.
 
+import "time"
+
 // VerifProcessor returns channel ch's real DataStreamProcessor (with its embedded DataPublisher),
 // so the harness can attach file writers and projectors through the exported methods.
 func (vs *VerifSource) VerifProcessor(ch int) *DataStreamProcessor { return vs.processors[ch] }
+
+// VerifProcessSegment runs the real per-channel processSegment (trigger, analyze, PublishData,
+// including its panic on a PublishData error) on one block of samples of channel ch, then trims the
+// stream as ProcessSegments does. Unlike ProcessSegments it does not flush the file writers every
+// 20th block. Records sent to the publish channel are discarded.
+func (vs *VerifSource) VerifProcessSegment(ch int, firstFrame int64, firstTimeNs int64, periodNs int64, data []RawType) {
+	seg := DataSegment{rawData: data, framesPerSample: 1, firstFrameIndex: FrameIndex(firstFrame),
+		firstTime: time.Unix(0, firstTimeNs), framePeriod: time.Duration(periodNs), voltsPerArb: 1. / 65535.0}
+	dsp := vs.processors[ch]
+	dsp.processSegment(&seg)
+	seg.processed = true
+	dsp.TrimStream()
+	for {
+		select {
+		case <-vs.captured:
+			continue
+		default:
+		}
+		return
+	}
+}
